@@ -93,6 +93,11 @@ func runRobust(o opts, out *Output) {
 	for c := 0; c < o.n; c++ {
 		g := &OGen{r: r.Fork(), Wide: r.Chance(20), Mono: monoPick(r)}
 		var options []cfgpkg.Option
+		optName := "default"
+		if r.Bool() {
+			// "never panics" holds under every producer configuration: one choice per dimension of the option space
+			options, optName = randomOptions(r)
+		}
 		pr := newProducerRun(options...)
 		nb := 1 + r.Intn(5)
 		var hist []map[string]any
@@ -103,12 +108,16 @@ func runRobust(o opts, out *Output) {
 				sig = r.Intn(3)
 			}
 			data := genAny(g, r, sig)
+			if r.Chance(6) {
+				wg := &OGen{r: r.Fork(), Wide: true}
+				data = genAnyN(wg, r, sig, 300+r.Intn(200)) // many dictionary columns crossing an index width in one batch
+			}
 			res, site := pr.produceWithStack(data)
 			stats["batch_"+res.Class]++
 			hist = append(hist, map[string]any{"signal": sig, "items": itemCount(data), "class": res.Class, "msg": panicSite(res.Msg), "site": site})
 			if res.Class == "panic" {
 				out.Violation("C08", "producer-panic:"+site+":"+panicSite(res.Msg), fmt.Sprintf("producer panicked on batch %d of a history (%s): %s", b, site, res.Msg),
-					map[string]any{"seed": o.seed, "case": c, "batch": b, "history": hist})
+					map[string]any{"seed": o.seed, "case": c, "batch": b, "options": optName, "history": hist})
 				break
 			}
 		}
@@ -116,7 +125,7 @@ func runRobust(o opts, out *Output) {
 			defer func() { recover() }()
 			pr.p.Close()
 		}()
-		out.AddCase(map[string]any{"case": c, "history": hist}, true, fmt.Sprintf("batches=%d mode=%d", nb, single))
+		out.AddCase(map[string]any{"case": c, "options": optName, "history": hist}, true, fmt.Sprintf("batches=%d mode=%d options=%v", nb, single, optName != "default"))
 	}
 	runBoundary(o, out, stats)
 	out.Extra["stats"] = stats
